@@ -402,6 +402,7 @@ func runC14(c *Ctx, tier string) {
 	c.Rule("C14-O1", "data before metadata: a commit is reached only after every writer Close / CreateVector returned nil (= C17-O2)")
 	c.Rule("C14-S1", "object order is deterministic: the lister's object sort and the load sort are stable sorts (= C06-S1 on the lake path)")
 	runLakeErrDiscipline(c, "C14-E1")
+	runPatchRefusalIsFatal(c, "C14-P3")
 	runSeekLookupScansAll(c, "C14-L1")
 	runBoundsUseSortEvaluator(c, "C14-K4")
 	runLakeErrNotConverted(c, "C14-E2")
@@ -506,6 +507,7 @@ func stableSorts(c *Ctx, rule string, fns []string) {
 func runC15(c *Ctx, tier string) {
 	p := c.P
 	runPathCacheHoldsFullPaths(c, "C15-C1")
+	runCommonAncestorNone(c, "C15-A1")
 	c.Rule("C15-K1", "a patch's view reflects everything its mutators record: Lookup/Select/SelectAll read every field AddDataObject/DeleteObject write, HasVector every field AddVector/DeleteVector write")
 	c.Rule("C15-P3", "merge and revert objects are built against the tip inside the retry loop (= C12-P3)")
 	c.Rule("C15-E1", "conflict errors abort before any write: errors of Diff / Patch.Revert / PatchOfPath are returned from the constructor, which runs before commits.Put")
